@@ -31,7 +31,7 @@ def classify(prog, stats, feats):
 
 
 def run(ctx):
-    return g1check.run(ctx, CFG, quick_n=320, thorough_n=40000, quick_table=120)
+    return g1check.run(ctx, CFG, quick_n=960, thorough_n=60000, quick_table=300)
 
 
 def replay(ctx, data):
